@@ -269,6 +269,20 @@ def pick_fault_event(r, strata: dict[str, list[dict]]) -> dict | None:  # noqa: 
     return r.choice(evs)
 
 
+def pick_fault_event_for_op(r, strata: dict[str, list[dict]], op: str) -> dict | None:  # noqa: ANN001
+    """Like pick_fault_event, but the life-cycle step is given (used to cover every (op, kind) pair in a batch)."""
+    cands = [(cls, f) for cls in sorted(strata) if cls != "other" for f in strata[cls] if f["events"].get(op)]
+    if not cands:
+        return None
+    weights = [1.0 / max(1, len(strata[cls])) for cls, _f in cands]  # uniform over file classes, then over files
+    _cls, f = r.choices(cands, weights=weights)[0]
+    evs = f["events"][op]
+    if op == "write":
+        which = r.choice(["first", "mid", "last"])
+        return evs[0] if which == "first" else (evs[-1] if which == "last" else r.choice(evs))
+    return r.choice(evs)
+
+
 # --------------------------------------------------------------------------- known findings
 
 
